@@ -54,19 +54,13 @@ impl CalendarTimeBucketer {
     }
 
     fn bucket_hour<T: TimeZone>(&self, dt: DateTime<T>) -> DateTime<T> {
-        dt.date_naive()
-            .and_hms_opt(dt.hour(), 0, 0)
-            .unwrap()
-            .and_local_timezone(dt.timezone())
-            .unwrap()
+        let start = dt.date_naive().and_hms_opt(dt.hour(), 0, 0).unwrap();
+        resolve_local_start(start, &dt)
     }
 
     fn bucket_day<T: TimeZone>(&self, dt: DateTime<T>) -> DateTime<T> {
-        dt.date_naive()
-            .and_hms_opt(0, 0, 0)
-            .unwrap()
-            .and_local_timezone(dt.timezone())
-            .unwrap()
+        let start = dt.date_naive().and_hms_opt(0, 0, 0).unwrap();
+        resolve_local_start(start, &dt)
     }
 
     fn bucket_week<T: TimeZone>(&self, dt: DateTime<T>) -> DateTime<T> {
@@ -75,37 +69,63 @@ impl CalendarTimeBucketer {
             % 7;
 
         let week_start = dt.date_naive() - chrono::Duration::days(days_since_week_start as i64);
-        week_start
-            .and_hms_opt(0, 0, 0)
-            .unwrap()
-            .and_local_timezone(dt.timezone())
-            .unwrap()
+        let start = week_start.and_hms_opt(0, 0, 0).unwrap();
+        resolve_local_start(start, &dt)
     }
 
     fn bucket_month<T: TimeZone>(&self, dt: DateTime<T>) -> DateTime<T> {
-        dt.date_naive()
+        let start = dt
+            .date_naive()
             .with_day(1)
             .unwrap()
             .and_hms_opt(0, 0, 0)
-            .unwrap()
-            .and_local_timezone(dt.timezone())
-            .unwrap()
+            .unwrap();
+        resolve_local_start(start, &dt)
     }
 
     fn bucket_year<T: TimeZone>(&self, dt: DateTime<T>) -> DateTime<T> {
-        dt.date_naive()
+        let start = dt
+            .date_naive()
             .with_month(1)
             .unwrap()
             .with_day(1)
             .unwrap()
             .and_hms_opt(0, 0, 0)
-            .unwrap()
-            .and_local_timezone(dt.timezone())
-            .unwrap()
+            .unwrap();
+        resolve_local_start(start, &dt)
     }
 }
 
 /// Fallback to naive implementation for performance-critical paths
+/// Resolves the local wall-clock start of a bucket to an instant. A wall-clock time can occur twice
+/// (DST fall-back) or not at all (DST spring-forward, e.g. a skipped local midnight); `unwrap()` on
+/// the `LocalResult` panicked for both. For a repeated time the bucket of `at` starts at the latest
+/// occurrence that is not after `at`; for a skipped time it starts at the first instant after the gap.
+fn resolve_local_start<T: TimeZone>(start: chrono::NaiveDateTime, at: &DateTime<T>) -> DateTime<T> {
+    use chrono::LocalResult;
+    let tz = at.timezone();
+    match tz.from_local_datetime(&start) {
+        LocalResult::Single(t) => t,
+        LocalResult::Ambiguous(first, second) => {
+            if second <= *at {
+                second
+            } else {
+                first
+            }
+        }
+        LocalResult::None => {
+            let mut probe = start;
+            for _ in 0..12 {
+                probe += chrono::Duration::minutes(15);
+                if let Some(t) = tz.from_local_datetime(&probe).earliest() {
+                    return t;
+                }
+            }
+            at.clone()
+        }
+    }
+}
+
 pub fn naive_bucket_of(ts: u64, gran: &TimeGranularity) -> u64 {
     match gran {
         TimeGranularity::Hour => (ts / 3600) * 3600,
